@@ -74,27 +74,28 @@ Qed.
 Print Assumptions C08_bytes_reject.
 
 (** ... and a path type the record model does not cover is reported as such, never silently
-    discarded: [NotScionPath pt] means the SCION header decoded with an empty (0), one-hop (2) or
-    EPIC (3) path. *)
+    discarded: [NotScionPath pt] means the SCION header decoded (strict C18 decoder) with a path
+    that is not of the SCION type: pt = its path type <> 1, i.e. empty (0), one-hop (2) or EPIC (3). *)
 Theorem C08_bytes_not_scion : forall qport mq c now ing raw pt,
   wf_bytes raw -> process_bytes qport mq c now ing raw = NotScionPath pt ->
-  (pt = 0 \/ pt = 2 \/ pt = 3) /\
+  pt <> 1 /\
   exists h pld, HdrScion.scion_decode raw = Ok (h, pld) /\ HdrScion.s_pathtype h = pt /\
-                HdrPath.path_type (HdrScion.s_path h) = pt.
+                HdrPath.path_type (HdrScion.s_path h) = pt /\
+                (forall rp, HdrScion.s_path h <> HdrPath.PScion rp).
 Proof.
   intros qport mq c now ing raw pt W. unfold process_bytes, abstract_res.
   destruct (HdrScion.scion_decode raw) as [[h pld]| |] eqn:Es; try discriminate.
   destruct (scion_enc_dec _ _ _ W Es) as (WN & _).
-  destruct WN as (_ & _ & _ & _ & Hpt & _ & _ & _ & _ & _ & _ & _ & _ & _ & ND).
+  destruct WN as (_ & _ & _ & _ & Hpt & _ & _ & _ & _ & _ & _ & _ & _ & Wp & ND).
   destruct (skip_exts (HdrScion.s_nexthdr h) pld) as [[proto l4]| |]; try discriminate.
-  destruct (HdrScion.s_path h) as [|rp|o|ep|dp] eqn:Ep.
-  - intros X; injection X as <-. split; [left; exact Hpt|]. exists h, pld. rewrite Ep. auto.
-  - destruct (path_fields rp) as [[[rsv infos] hops]| |]; try discriminate.
-    destruct (l4_port qport proto l4); try discriminate;
-      destruct (R.process_scion _ _ _ _ _); discriminate.
-  - intros X; injection X as <-. split; [right; left; exact Hpt|]. exists h, pld. rewrite Ep. auto.
-  - intros X; injection X as <-. split; [right; right; exact Hpt|]. exists h, pld. rewrite Ep. auto.
-  - exfalso. exact (ND dp eq_refl).
+  destruct (HdrScion.s_path h) eqn:Ep;
+    try (destruct (path_fields _) as [[[rsv infos] hops]| |]; try discriminate;
+         destruct (l4_port qport proto l4); try discriminate;
+         destruct (R.process_scion _ _ _ _ _); discriminate);
+    intros X; injection X as <-;
+    (split; [rewrite Hpt; cbn [HdrPath.path_type]; first [discriminate | exfalso; eapply ND; reflexivity
+                                                          | cbn in Wp; destruct Wp; lia]
+            | exists h, pld; rewrite Ep; repeat split; first [exact Hpt | now symmetry | discriminate]]).
 Qed.
 Print Assumptions C08_bytes_not_scion.
 
